@@ -8,9 +8,11 @@ SNAP=/dev/shm/verif_snap; rm -rf $SNAP; mkdir -p $SNAP
 rsync -a --exclude .git --exclude out --exclude seeded --exclude benign --exclude evidence /verif/ $SNAP/
 export VERIF_SNAPSHOT=$SNAP
 ( for d in seeded/C??-m*; do echo "$d $(basename $d | cut -d- -f1)"; done; for d in benign/C??-b?; do echo "$d $(basename $d | cut -d- -f1)"; done ) \
-  | xargs -P $P -L 1 sh -c '/venv/bin/python /verif/tools/seed_run_wt.py /verif/$0 $1 2>&1 | grep -E " exit " | cut -c1-160' > out/regress.log 2>&1
+  | xargs -P $P -L 1 sh -c '/venv/bin/python /verif/tools/seed_run_wt.py /verif/$0 $1 2>&1 | grep -E " exit |STALE|NEUTRALISED" | cut -c1-160' > out/regress.log 2>&1
 echo "seeded caught by owner: $(grep -c -E "^C..-m[0-9]+ C.. exit 1" out/regress.log) / $(ls -d seeded/C??-m* | wc -l)"
 echo "seeded not caught by owner:"; grep -E "^C..-m[0-9]+ C.. exit [02]" out/regress.log
+echo "seeded stale (patch no longer applies): $(grep -c -E "^C..-m[0-9]+ STALE" out/regress.log); neutralised by a later repair: $(grep -c -E "^C..-m[0-9]+ NEUTRALISED" out/regress.log)"
+grep -E "^C..-m[0-9]+ (STALE|NEUTRALISED)" out/regress.log
 echo "benign passing: $(grep -c -E "^C..-b[0-9] C.. exit 0" out/regress.log) / $(ls -d benign/C??-b? | wc -l)"
 echo "benign alarming or failing:"; grep -E "^C..-b[0-9] C.. exit [12]" out/regress.log
 rm -rf $SNAP
